@@ -40,12 +40,13 @@ def lua_long(s: str) -> str:
     return "[" + eq + "[" + s + "]" + eq + "]"
 
 
-def make_ctx(d, lib, need, prebody, name="p"):
+def make_ctx(d, lib, need, prebody, name="p", enwikt=True):
     from wikitextprocessor import Wtp
 
     sub = Path(d) / name
     sub.mkdir(parents=True, exist_ok=True)
-    ctx = Wtp(db_path=str(sub / "pages.db"), quiet=True, quiet_output=True)
+    # a context that is not "English Wiktionary" expands need_pre_expand templates fully
+    ctx = Wtp(db_path=str(sub / "pages.db"), quiet=True, quiet_output=True, project="wiktionary" if enwikt else "wikipedia")
     luastub.install(ctx)
     luastub.add_module(ctx, "M", MODULE_M.replace("PREBODY", lua_long(tr.render(prebody))))
     for nm, segs in lib.items():
@@ -176,6 +177,6 @@ def bad_messages(ctx, title):
 def group_cases(cases):
     groups = {}
     for idx, c in enumerate(cases):
-        k = common.json_key([c["lib"], c["need"]])
+        k = common.json_key([c["lib"], c["need"], c.get("enw", True)])
         groups.setdefault(k, []).append(idx)
     return list(groups.values())
